@@ -48,7 +48,7 @@ DEFECTS = ["self-signed", "cycle2", "cycle3", "dangling-signer", "nonstring-sign
            "missing-field", "mistyped-field", "dup-field", "dup-name", "unknown-version",
            "unknown-type", "dangling-target", "dup-target", "nonstring-target",
            "elements-not-list", "targets-not-list", "element-not-object", "top-not-object",
-           "missing-top-field", "bad-hex"]
+           "missing-top-field", "bad-hex", "offpath-element"]
 V2_SHAPES = ["att-msg-extended", "quote-msg-extended", "att-msg-short", "quote-msg-short",
              "att-key-compressed", "auth-empty", "other-target"]
 KNOWN_SIG = "validation-raises:NotImplementedError"
@@ -151,6 +151,14 @@ def cases(draw, tier):
                 targets.append(targets[0])
         elif d == "nonstring-target":
             targets.append(draw(st.sampled_from([None, 0, 1.5, True, [], ["ui"], {}])))
+        elif d == "offpath-element":
+            # an element no target depends on, certified by nothing in particular
+            spare = [nm for nm in pool if nm not in names] or ["spare"]
+            e2 = draw(element(v, spare[0], rootname))
+            eset(e2, "signed_by", draw(st.sampled_from([None, None, 0, "nosuch", "", spare[0],
+                                                        rootname, names[0] if names else
+                                                        rootname])))
+            els.append(e2)
         elif d == "element-not-object":
             els.append(draw(st.sampled_from([None, 0, "ui", [], ["name", "ui"]])))
         elif pick is None:
